@@ -157,7 +157,7 @@ def main(ck):
         s = shapes[g]
         pnt = s.pos + (0 if s.typ == 'plane' else 0.3 * s.minsize()) * gg.rand_unit(rng) * rng.uniform(0, 1)
       elif k == 1:
-        pnt = L * 10 * gg.rand_unit(rng)
+        pnt = L * 10 ** rng.uniform(1, 3.5) * gg.rand_unit(rng)     # far to very far origins (flat BVH leaves, cancellation)
       else:
         pnt = L * rng.uniform(-1, 1, 3)
       kd = rng.randint(6)
@@ -220,9 +220,6 @@ def main(ck):
           raise Violation('mj_ray returned -1 but geomid %d normal %s%s' % (gid, nrm, desc()), bucket='none-outputs')
         if robust:
           g0, o0 = min(robust, key=lambda t: t[1]['x'])
-          if flat_face(o0, shapes[g0]):
-            finding('raymesh-flat-leaf', FLAT + 'mj_ray returned -1, geom %d hit at %.17g%s' % (g0, o0['x'], desc()), info)
-            continue
           raise Violation('mj_ray returned -1 but geom %d (%s) is hit at x=%.17g%s' % (g0, shapes[g0].typ, o0['x'], desc()),
                           bucket='missed-hit')
       else:
@@ -234,14 +231,12 @@ def main(ck):
           if og is None:
             raise Violation('mj_ray hit geom %d (%s) at %.17g; the reference finds no intersection%s' % (
                 gid, shapes[gid].typ, x, desc()), bucket='phantom-hit')
-        elif abs(og['x'] - x) > tolx and not og['fragile'] and not (flat_face(og, shapes[gid]) and x > og['x']):
+        elif abs(og['x'] - x) > tolx and not og['fragile']:
           raise Violation('mj_ray x=%.17g on geom %d (%s), reference %.17g%s' % (x, gid, shapes[gid].typ, og['x'], desc()),
                           bucket='distance')
         if robust:
           g0, o0 = min(robust, key=lambda t: t[1]['x'])
-          if x > o0['x'] + tolx and flat_face(o0, shapes[g0]):
-            finding('raymesh-flat-leaf', FLAT + 'mj_ray x=%.17g, geom %d hit at %.17g%s' % (x, g0, o0['x'], desc()), info)
-          elif x > o0['x'] + tolx:
+          if x > o0['x'] + tolx:
             raise Violation('mj_ray returned x=%.17g (geom %d) but geom %d (%s) is hit earlier at %.17g%s' % (
                 x, gid, g0, shapes[g0].typ, o0['x'], desc()), bucket='not-nearest')
         if allx:
@@ -372,22 +367,8 @@ def main(ck):
     except mj.MjError:
       pass
 
-  def flat_face(o, shape):
-    """reference hit on an axis-aligned mesh triangle (its BVH leaf box is flat)"""
-    if o is None or o.get('x') is None or shape.typ != 'mesh':
-      return False
-    nl = shape.mat.T @ o['normal']
-    return float(np.max(np.abs(nl))) > 1 - 1e-9
-
-  FLAT = ('mj_rayMesh misses axis-aligned mesh faces (returns -1 or a farther face) when the hit parameter x is large (>~ 50): '
-          'the BVH leaf box of such a face has thickness ~2e-14 and mju_raySlab requires tmin < tmax strictly, which rounding '
-          'turns into tmin == tmax -- ')
-
   def compare_one(xg, nrm, o, shape, pnt, vec, tolx, what, desc, worst, info=None):
     """Per-geom function against the reference."""
-    if flat_face(o, shape) and not o['fragile'] and (xg < 0 or xg > o['x'] + tolx):
-      finding('raymesh-flat-leaf', FLAT + '%s: engine x=%.17g, reference %.17g%s' % (what, xg, o['x'], desc()), info or {})
-      return
     if o is None:
       if xg >= 0:
         raise Violation('%s: engine x=%.17g, reference: no intersection%s' % (what, xg, desc()), bucket='geom-phantom')
